@@ -104,6 +104,8 @@ class Classifier:
             a, b = self.scalar(e.left, depth + 1), self.scalar(e.right, depth + 1)
             if a.kind == b.kind and a.kind in ("OVER", "UNDER"):
                 return Q(a.kind, a.owners | b.owners)
+            if {a.kind, b.kind} <= {"OVER", "UNDER"}:
+                return Q("MIXED", a.owners | b.owners, "sum of an upper and a lower bound: bounds nothing")
             return Q("UNK")
         if isinstance(e, ast.Call):
             cn = dotted(e.func)
